@@ -32,6 +32,9 @@ def _build_expresion_recursive(stack, location):
     if IS_TERMINAL_MAP[operator]:
         if operator == CONSTANT:
             param_1 = param_2 = location
+        elif operator == INTEGER:
+            # exact (python) integers: numpy integers would wrap around silently
+            param_1 = param_2 = int(param_1)
         operands = [param_1]
         if IS_ARITY_2_MAP[operator]:
             operands += [param_2]
